@@ -733,12 +733,14 @@ def body_subgroup(case, ctx):
 def adjoint_case(draw, min_dim=1):
     n = draw(st.sampled_from([d for d in [1, 2, 2, 3, 3, 4] if d >= min_dim]))
     c = draw(derived_case(max_dim=n, min_dim=n, wlen=8, max_gens=3))
-    if c["kind"] == "int" and draw(st.booleans()):
+    if c["kind"] == "int" and draw(st.integers(0, 3)) > 0:
         # integer generators whose inverse is NOT an integer matrix (det +-2, +-3): the
         # adjoint then has genuinely fractional entries (an integer-typed result would be
-        # truncated)
-        for m in c["mats"]:
-            if draw(st.booleans()):
+        # truncated) - held in int64 arrays in two cases out of three
+        if not c.get("intlast"):
+            c["intdtype"] = draw(st.integers(0, 2)) > 0
+        for k_, m in enumerate(c["mats"]):
+            if k_ == 0 or draw(st.booleans()):
                 r = draw(st.integers(0, n - 1))
                 f = draw(st.sampled_from([2, 3]))
                 m[r] = [f * x for x in m[r]]
@@ -1282,6 +1284,18 @@ def body_history(case, ctx):
                       atol=64 * (len(w) + 1) * n * O.EPS * growth * cmax + 1e-13, word=wstr(w))
             if len(w) >= 3:
                 ctx.label("probe-len>=3")
+            # every letter and every two-letter word, after every step: a word in which a
+            # generator occurs only through its inverse letter is asked before and after that
+            # generator is assigned again
+            for x in keys:
+                ctx.close("single letter after the step", np.asarray(rep[x]), model[x][0],
+                          rtol=0, atol=64 * n * O.EPS * cmax * max(1.0, O.norm2(model[x][0]))
+                          + 1e-13, letter=x)
+                for y in keys[:4]:
+                    ctx.close("two-letter word after the step", np.asarray(rep[x + y]),
+                              model[x][0] @ model[y][0], rtol=0,
+                              atol=256 * n * O.EPS * cmax * max(1.0, O.norm2(model[x][0])) *
+                              max(1.0, O.norm2(model[y][0])) + 1e-13, word=x + y)
     if assigned >= 3:
         ctx.label("assignments>=3")
 
@@ -1440,7 +1454,7 @@ LAWS = [
         shards=(1, 4)),
     Law("derived_gln_adjoint", adjoint_case_x(1), body_adjoint("gln"), G.nontrivial, quick=84,
         thorough=360, shards=(1, 4)),
-    Law("derived_sln_adjoint", adjoint_case_x(2), body_adjoint("sln"), G.nontrivial, quick=84,
+    Law("derived_sln_adjoint", adjoint_case_x(2), body_adjoint("sln"), G.nontrivial, quick=140,
         thorough=360, shards=(1, 4)),
     Law("derived_astype", astype_case(), body_astype, G.nontrivial, quick=112, thorough=480,
         shards=(1, 2)),
